@@ -218,11 +218,18 @@ func init() {
 		// alarm): the concurrency half is then undecided; repeatability is asserted separately.
 		if n > 0 {
 			p.reached = append(p.reached, "writes-to-prestate:"+label+": "+what)
+			// candidate data race: confirmed (or not) by running the harness's vsym.Concurrent
+			// operations under the Go race detector on this path's inputs
+			e.inModel = true
+			fs := e.resolveCandidate(candidate{Site: "race:" + label, Msg: "read-only operations store into " + what + " (shared state): data race when called concurrently", Where: e.pos(fr.callPos)}, e.curHS)
+			e.pathFindings = append(e.pathFindings, fs...)
+			e.inModel = false
 		} else {
 			p.reached = append(p.reached, "readonly:"+label)
 		}
 		return nil
 	})
+	reg("Concurrent", func(fr *frame, a []Value) Value { return nil }) // native race-detector runs only
 	reg("Observe", func(fr *frame, a []Value) Value { return nil })
 	reg("ObserveBytes", func(fr *frame, a []Value) Value { return nil })
 	reg("AssertBytesEq", func(fr *frame, a []Value) Value {
